@@ -13,6 +13,20 @@ Import ListNotations.
 Open Scope Z_scope.
 Ltac Zify.zify_post_hook ::= Z.to_euclidean_division_equations.
 
+(** * Lenient mode on the rows of the table: the same step as in strict mode *)
+Definition row_lenient_ok (name : bytes) (e : entry) (m : bytes) : Prop :=
+  row_is_err e m = false -> forall tl, head_ok tl = true ->
+  parse_next_item true [] (37 :: m ++ name ++ tl) = parse_next_item false [] (37 :: m ++ name ++ tl).
+Lemma rows_lenient : Forall (fun ne => Forall (row_lenient_ok (fst ne) (snd ne)) modifiers) doc_table.
+Proof.
+  unfold doc_table, modifiers.
+  repeat (apply Forall_cons;
+          [repeat (apply Forall_cons;
+                   [cbn [fst snd]; intros Herr;
+                    first [discriminate Herr | (intros tl Htl; sf_step; reflexivity)]|]); apply Forall_nil|]).
+  apply Forall_nil.
+Qed.
+
 (** * Characters of a valid string, as the strict `next!()` sees them *)
 Lemma valid_nonneg b r : utf8_valid (b :: r) = true -> 0 <= b.
 Proof.
@@ -72,11 +86,13 @@ Qed.
 
 (** the outcome "this step yields [Error]" *)
 Definition is_err_res (x : R (option (bytes * Item) * list Item)) : Prop :=
-  match x with Val (Some (_, IError), _) => True | _ => False end.
-Lemma is_err_res_inv x : is_err_res x -> exists rm q, x = Val (Some (rm, IError), q).
+  match x with Val (Some (rm, IError), _) => utf8_valid rm = true | _ => False end.
+Lemma is_err_res_inv x : is_err_res x ->
+  exists rm q, x = Val (Some (rm, IError), q) /\ utf8_valid rm = true.
 Proof.
   destruct x as [[[[rm it]|] q]| |]; cbn; try contradiction. destruct it; try contradiction. eauto.
 Qed.
+Ltac fin := first [reflexivity | assumption].
 
 Lemma pni_percent l q r : parse_next_item l q (37 :: r) = parse_spec l q (37 :: r).
 Proof. reflexivity. Qed.
@@ -136,7 +152,7 @@ Ltac colon_prep Hl :=
         [apply strip_prefix_sound in P; subst tl; exfalso; vm_compute in Hl; discriminate Hl|]
   end.
 Ltac leaf Hl :=
-  first [ exact I
+  first [ reflexivity | assumption
         | (exfalso; vm_compute in Hl; discriminate Hl) ].
 
 (** * An ASCII character after the optional modifier that starts no table row *)
@@ -159,19 +175,19 @@ Proof.
       rewrite (snc_ascii _ c tl 0) by (first [lia | exact Hh]). cbv beta iota delta [bind].
       unfold SF_PAD_OVERRIDE, SF_ALT_CHAR. cbn [assoc]. rewrite E1, E2, E3.
       replace (c =? 35) with false by lia. cbn [is_some orb andb]. cbv beta iota delta [bind]. rewrite Hn.
-      cbn. exact I.
+      cbn. fin.
     + rewrite (snc_ascii _ 45 (c :: tl) 0) by (first [lia | hd2]). cbv beta iota delta [bind].
       cbn [assoc SF_PAD_OVERRIDE Z.eqb Pos.eqb is_some orb]. cbv beta iota delta [bind].
       rewrite (snc_ascii _ c tl 0) by (first [lia | exact Hh]). cbv beta iota delta [bind].
-      cbn [SF_ALT_CHAR Z.eqb Pos.eqb andb]. cbv beta iota delta [bind]. rewrite Hn. cbn. exact I.
+      cbn [SF_ALT_CHAR Z.eqb Pos.eqb andb]. cbv beta iota delta [bind]. rewrite Hn. cbn. fin.
     + rewrite (snc_ascii _ 95 (c :: tl) 0) by (first [lia | hd2]). cbv beta iota delta [bind].
       cbn [assoc SF_PAD_OVERRIDE Z.eqb Pos.eqb is_some orb]. cbv beta iota delta [bind].
       rewrite (snc_ascii _ c tl 0) by (first [lia | exact Hh]). cbv beta iota delta [bind].
-      cbn [SF_ALT_CHAR Z.eqb Pos.eqb andb]. cbv beta iota delta [bind]. rewrite Hn. cbn. exact I.
+      cbn [SF_ALT_CHAR Z.eqb Pos.eqb andb]. cbv beta iota delta [bind]. rewrite Hn. cbn. fin.
     + rewrite (snc_ascii _ 48 (c :: tl) 0) by (first [lia | hd2]). cbv beta iota delta [bind].
       cbn [assoc SF_PAD_OVERRIDE Z.eqb Pos.eqb is_some orb]. cbv beta iota delta [bind].
       rewrite (snc_ascii _ c tl 0) by (first [lia | exact Hh]). cbv beta iota delta [bind].
-      cbn [SF_ALT_CHAR Z.eqb Pos.eqb andb]. cbv beta iota delta [bind]. rewrite Hn. cbn. exact I.
+      cbn [SF_ALT_CHAR Z.eqb Pos.eqb andb]. cbv beta iota delta [bind]. rewrite Hn. cbn. fin.
   - (* one of the arms: the single-character rows contradict the table lookup, the others are
        followed through *)
     unfold SF_ARMS in Hk. cbn [map fst In] in Hk. unfold modifiers in Hm. cbn [In] in Hm.
@@ -197,12 +213,12 @@ Lemma unknown_err r pad r1 : utf8_valid r = true -> split_mod r = (pad, r1) ->
 Proof.
   intros Hv Hs Hl.
   destruct (char_cases r Hv) as [-> | [(c & tl & -> & Hc & Hvt) | (x & tl & Hx & Hvt & (b & r' & -> & Hb) & Hsn)]].
-  - vm_compute. exact I.
+  - vm_compute. reflexivity.
   - cbn [split_mod] in Hs. destruct (modifier c) as [p|] eqn:Em.
     + (* a padding modifier, then ... *)
       injection Hs as <- <-.
       destruct (char_cases tl Hvt) as [-> | [(c2 & tl2 & -> & Hc2 & Hvt2) | (x & tl2 & Hx & Hvt2 & (b & r' & -> & Hb) & Hsn)]].
-      * destruct (modifier_cases _ _ Em) as [-> | [-> | ->]]; vm_compute; exact I.
+      * destruct (modifier_cases _ _ Em) as [-> | [-> | ->]]; vm_compute; reflexivity.
       * destruct (modifier_cases _ _ Em) as [-> | [-> | ->]].
         -- apply (after_mod_err [45] c2 tl2); auto; [cbn; auto|discriminate].
         -- apply (after_mod_err [95] c2 tl2); auto; [cbn; auto|discriminate].
@@ -210,7 +226,7 @@ Proof.
       * assert (Hh : head_ok (b :: r') = true) by (apply valid_head_ok; exact Hvt).
         destruct (modifier_cases _ _ Em) as [-> | [-> | ->]]; rewrite pni_percent; unfold parse_spec;
           rewrite str_from_1 by hd2; cbv beta iota delta [bind];
-          rewrite snc_ascii by (first [lia | exact Hh]); cbn; rewrite Hsn; cbn; kill_eqb x; cbn; exact I.
+          rewrite snc_ascii by (first [lia | exact Hh]); cbn; rewrite Hsn; cbn; kill_eqb x; cbn; fin.
     + injection Hs as <- <-.
       destruct (Z.eq_dec c 35) as [->|Hne].
       * (* the alternate flag *)
@@ -218,27 +234,42 @@ Proof.
         rewrite pni_percent; unfold parse_spec. rewrite str_from_1 by hd2. cbv beta iota delta [bind].
         rewrite snc_ascii by (first [lia | exact Hh]). cbn.
         destruct (char_cases tl Hvt) as [-> | [(c2 & tl2 & -> & Hc2 & Hvt2) | (x & tl2 & Hx & Hvt2 & _ & Hsn)]].
-        -- rewrite snc_nil. cbn. exact I.
+        -- rewrite snc_nil. cbn. fin.
         -- rewrite snc_ascii by (first [lia | (apply valid_head_ok; assumption)]). cbn.
            destruct (c2 =? 122) eqn:E.
            ++ apply Z.eqb_eq in E. subst c2. exfalso. vm_compute in Hl. discriminate Hl.
-           ++ cbn. exact I.
-        -- rewrite Hsn. cbn. replace (x =? 122) with false by lia. cbn. exact I.
+           ++ cbn. fin.
+        -- rewrite Hsn. cbn. replace (x =? 122) with false by lia. cbn. fin.
       * apply (after_mod_err [] c tl); auto; cbn; auto.
   - (* a multi-byte character *)
     assert (Hh : head_ok (b :: r') = true) by (apply valid_head_ok; exact Hv).
     rewrite pni_percent; unfold parse_spec. rewrite str_from_1 by hd2. cbv beta iota delta [bind].
-    rewrite Hsn. cbn. unfold SF_ALT_CHAR. kill_eqb x. cbn. kill_eqb x. cbn. exact I.
+    rewrite Hsn. cbn. unfold SF_ALT_CHAR. kill_eqb x. cbn. kill_eqb x. cbn. fin.
 Qed.
 
-(** * The main induction, for every valid format string *)
-Lemma tok_main_all : forall (n : nat) r, (List.length r <= n)%nat -> utf8_valid r = true ->
+(** * The main induction, for every valid format string; in lenient mode for the strings
+    without error by the table (there the lenient iterator takes the same steps) *)
+Lemma has_err_app A : forall X, has_err (A ++ X) = has_err A || has_err X.
+Proof. induction A as [|a A IH]; intros X; [reflexivity|]. destruct a; cbn [app has_err]; auto. Qed.
+Lemma has_err_text (it : bytes) : has_err (map (fun c => KText [c]) it) = false.
+Proof. induction it; cbn; auto. Qed.
+Lemma drain_queue_l l : forall q f rm acc, forallb not_err q = true ->
+  sf_until_err (List.length q + f) (mk_sfi rm q l) acc = sf_until_err f (mk_sfi rm [] l) (rev q ++ acc).
+Proof.
+  induction q as [|i q IH]; intros f rm acc H; [reflexivity|].
+  cbn [forallb] in H. apply andb_prop in H. destruct H as [Hi Hq].
+  cbn [List.length Nat.add sf_until_err]. unfold sf_next. cbn [sf_queue sf_remainder sf_lenient]. cbv [bind].
+  destruct i; try discriminate Hi; rewrite IH by exact Hq; cbn [rev]; rewrite <- app_assoc; reflexivity.
+Qed.
+
+Lemma tok_main_gen l : forall (n : nat) r, (List.length r <= n)%nat -> utf8_valid r = true ->
+  (l = true -> has_err (toks tokens_simple (S (List.length r)) r) = false) ->
   forall fuel, (13 * List.length r < fuel)%nat ->
-  exists items, sf_until_err fuel (mk_sfi r [] false) [] = Val items /\
+  exists items, sf_until_err fuel (mk_sfi r [] l) [] = Val items /\
     norm_items items =
     norm_items (map item_of_tok (upto_err (toks tokens_simple (S (List.length r)) r))).
 Proof.
-  induction n as [|n IH]; intros r Hl Hv fuel Hf.
+  induction n as [|n IH]; intros r Hl Hv Hle fuel Hf.
   { destruct r; [|cbn in Hl; lia]. destruct fuel; [lia|]. exists []. split; reflexivity. }
   destruct r as [|b0 r'].
   { destruct fuel; [lia|]. exists []. split; reflexivity. }
@@ -250,16 +281,20 @@ Proof.
     destruct (split_mod r') as [pad r1] eqn:Ep.
     destruct (lookup doc_table r1) as [[e rest]|] eqn:El.
     2:{ (* no such row: Error on both sides *)
-        destruct (is_err_res_inv _ (unknown_err r' pad r1 Hvr' Ep El)) as (rm & q & Hp).
+        assert (Hk : toks tokens_simple (S (List.length (37 :: r'))) (37 :: r') = [KErr]).
+        { rewrite toks_unfold. change (37 =? 37) with true. cbv beta iota. unfold toks_percent.
+          rewrite Ep, El. reflexivity. }
+        destruct l; [specialize (Hle eq_refl); rewrite Hk in Hle; discriminate Hle|].
+        destruct (is_err_res_inv _ (unknown_err r' pad r1 Hvr' Ep El)) as (rm & q & Hp & _).
         exists [IError]. split.
         - cbn [sf_until_err]. unfold sf_next. cbn [sf_queue sf_remainder sf_lenient]. rewrite Hp. reflexivity.
-        - rewrite toks_unfold. change (37 =? 37) with true. cbv beta iota. unfold toks_percent.
-          rewrite Ep, El. reflexivity. }
+        - rewrite Hk. reflexivity. }
     destruct (percent_row _ _ _ Ep) as (m & Hm & Hr & Hpn & Hps).
     destruct (lookup_sound _ _ _ _ El) as (name & Hin & Hs).
     subst r1 r'.
     pose proof (table_row rows_model name e m Hin Hm) as Hmodel.
     pose proof (table_row rows_doc name e m Hin Hm) as Hdoc.
+    pose proof (table_row rows_lenient name e m Hin Hm) as Hlen0.
     assert (Hvrest : utf8_valid rest = true).
     { apply (valid_ascii_prefix m (modifiers_ascii m Hm)) in Hvr'.
       pose proof (proj1 (Forall_forall _ _) ascii_names _ Hin) as Hn. cbn [fst] in Hn.
@@ -268,23 +303,30 @@ Proof.
     assert (Hname : name <> []) by (exact (proj1 (Forall_forall _ _) names_nonempty _ Hin)).
     assert (Hlen : (List.length rest + 2 <= List.length (37%Z :: m ++ name ++ rest))%nat).
     { cbn [List.length]. rewrite !app_length. destruct name; [congruence|]. cbn [List.length]. lia. }
-    rewrite (Hdoc tokens_simple (List.length (37 :: m ++ name ++ rest)) rest).
+    rewrite (Hdoc tokens_simple (List.length (37 :: m ++ name ++ rest)) rest) in Hle |- *.
     destruct (row_is_err e m) eqn:Eerr.
-    + destruct Hmodel as (rm & q & Hp).
+    + destruct l; [specialize (Hle eq_refl); discriminate Hle|].
+      destruct Hmodel as (rm & q & Hp).
       exists [IError]. split; [|reflexivity].
       cbn [sf_until_err]. unfold sf_next. cbn [sf_queue sf_remainder sf_lenient]. rewrite Hp. reflexivity.
     + destruct Hmodel as (i0 & q & Hp & Hnorm & Hne).
+      assert (Hp' : parse_next_item l [] (37 :: m ++ name ++ rest) = Val (Some (rest, i0), q)).
+      { destruct l; [|exact Hp]. rewrite (Hlen0 Eerr rest (valid_head_ok _ Hvrest)). exact Hp. }
       pose proof Hp as Hq. apply parse_next_item_consumes in Hq; [|left; reflexivity].
       destruct Hq as [_ Hq]. apply queue_ok_short in Hq.
       assert (Hfuel : exists f1, f0 = (List.length q + f1)%nat /\ (13 * List.length rest < f1)%nat).
       { exists (f0 - List.length q)%nat. lia. }
       destruct Hfuel as (f1 & -> & Hf1).
-      destruct (IH rest ltac:(cbn [List.length] in *; lia) Hvrest f1 Hf1) as (items & Hi & Hn).
+      assert (Hle' : l = true -> has_err (toks tokens_simple (S (List.length rest)) rest) = false).
+      { intros E. specialize (Hle E). rewrite has_err_app in Hle. apply orb_false_elim in Hle.
+        rewrite (toks_fuel tokens_simple (S (List.length rest)) (List.length (37 :: m ++ name ++ rest)) rest) by lia.
+        exact (proj2 Hle). }
+      destruct (IH rest ltac:(cbn [List.length] in *; lia) Hvrest Hle' f1 Hf1) as (items & Hi & Hn).
       exists ((i0 :: q) ++ items). split.
-      * cbn [sf_until_err]. unfold sf_next. cbn [sf_queue sf_remainder sf_lenient]. rewrite Hp. cbv [bind].
+      * cbn [sf_until_err]. unfold sf_next. cbn [sf_queue sf_remainder sf_lenient]. rewrite Hp'. cbv [bind].
         cbn [forallb] in Hne. apply andb_prop in Hne. destruct Hne as [Hne0 Hneq].
-        assert (Hstep : sf_until_err (List.length q + f1) (mk_sfi rest q false) [i0] = Val ((i0 :: q) ++ items)).
-        { rewrite drain_queue by exact Hneq. rewrite sf_until_err_acc, Hi. unfold rmap, bind.
+        assert (Hstep : sf_until_err (List.length q + f1) (mk_sfi rest q l) [i0] = Val ((i0 :: q) ++ items)).
+        { rewrite drain_queue_l by exact Hneq. rewrite sf_until_err_acc, Hi. unfold rmap, bind.
           rewrite rev_app_distr, rev_involutive. reflexivity. }
         destruct i0; try discriminate Hne0; exact Hstep.
       * pose proof (table_row (P := fun _ e m => row_is_err e m = false -> forallb not_kerr (row_toks tokens_simple e m) = true)
@@ -296,21 +338,24 @@ Proof.
           by lia. reflexivity.
   - (* text *)
     destruct (first_char_not_percent b0 r' Hv ltac:(lia)) as (c0 & Hnc & Ec0).
-    destruct (text_step false [] (b0 :: r') c0 Hv Hnc Ec0) as (k & Hk & Hvk & Hn37 & Hp).
+    destruct (text_step l [] (b0 :: r') c0 Hv Hnc Ec0) as (k & Hk & Hvk & Hn37 & Hp).
     set (r := b0 :: r') in *. set (it := firstn k r) in *. set (rm := skipn k r) in *.
     assert (Hsplit : r = it ++ rm) by (symmetry; apply firstn_skipn).
     assert (Hlit : List.length it = k) by (unfold it; apply firstn_length_le; lia).
     assert (Hlrm : List.length r = (k + List.length rm)%nat) by (rewrite Hsplit at 1; rewrite app_length; lia).
-    destruct (IH rm ltac:(lia) Hvk f0 ltac:(lia)) as (items & Hi & Hn).
+    assert (Htoks : toks tokens_simple (S (List.length r)) r
+                    = map (fun c => KText [c]) it ++ toks tokens_simple (S (List.length rm)) rm).
+    { rewrite <- (toks_text tokens_simple it rm (S (List.length rm)) Hn37), <- Hsplit. f_equal. lia. }
+    assert (Hle' : l = true -> has_err (toks tokens_simple (S (List.length rm)) rm) = false).
+    { intros E. specialize (Hle E). rewrite Htoks, has_err_app, has_err_text in Hle. exact Hle. }
+    destruct (IH rm ltac:(lia) Hvk Hle' f0 ltac:(lia)) as (items & Hi & Hn).
     set (item := if is_whitespace c0 then Space it else Literal it) in *.
     exists (item :: items). split.
     + cbn [sf_until_err]. unfold sf_next. cbn [sf_queue sf_remainder sf_lenient]. rewrite Hp. cbv [bind].
-      assert (Hstep : sf_until_err f0 (mk_sfi rm [] false) [item] = Val (item :: items)).
+      assert (Hstep : sf_until_err f0 (mk_sfi rm [] l) [item] = Val (item :: items)).
       { rewrite sf_until_err_acc, Hi. reflexivity. }
       unfold item in *. destruct (is_whitespace c0); exact Hstep.
-    + replace (toks tokens_simple (S (List.length r)) r)
-        with (map (fun c => KText [c]) it ++ toks tokens_simple (S (List.length rm)) rm).
-      2:{ rewrite <- (toks_text tokens_simple it rm (S (List.length rm)) Hn37), <- Hsplit. f_equal. lia. }
+    + rewrite Htoks.
       rewrite upto_err_app by (intros t Ht ->; apply in_map_iff in Ht; destruct Ht as (c & Hc & _); discriminate).
       rewrite map_app, map_map. cbn [item_of_tok].
       rewrite norm_singletons by (intros E; rewrite E in Hlit; cbn in Hlit; lia).
@@ -321,6 +366,12 @@ Proof.
         with ([Literal it] ++ map item_of_tok (upto_err (toks tokens_simple (S (List.length rm)) rm))).
       apply norm_app_congr. exact Hn.
 Qed.
+Lemma tok_main_all : forall (n : nat) r, (List.length r <= n)%nat -> utf8_valid r = true ->
+  forall fuel, (13 * List.length r < fuel)%nat ->
+  exists items, sf_until_err fuel (mk_sfi r [] false) [] = Val items /\
+    norm_items items =
+    norm_items (map item_of_tok (upto_err (toks tokens_simple (S (List.length r)) r))).
+Proof. intros n r Hl Hv fuel Hf. apply (tok_main_gen false n r Hl Hv); [discriminate|exact Hf]. Qed.
 
 (** tokenization_all: the item list of EVERY valid UTF-8 format string is the documented one *)
 Theorem tokenization_all : forall fmt, utf8_valid fmt = true -> tokenization_agrees fmt.
